@@ -8,6 +8,8 @@ stated behaviour cannot hold:
              sequence and stay position-aligned: every later rebinding of the
              value lists is an element-wise map over them; a combination is
              dict(zip(names, one element of product(*value lists)));
+* R-ORDER    the order is independent of the writing order: items sorted by the whole
+             parameter name (injective key), every value list sorted;
 * R-NESTED   a dict-valued parameter is expanded by the same function (one level
              or more), any other value list is kept as is;
 * R-REGULAR  regularize_parameters keeps every key exactly once on every path and
@@ -33,6 +35,7 @@ def check(ctx: Ctx):
     ctx.undecided = ("that the list of combinations is exactly the cartesian product without repetition (delegated to itertools.product, depends on the "
                      "run-time values, e.g. duplicated values in the definition); determinism of the order beyond the alignment.")
     ctx.rule("R-ALIGN", "names and value lists stay position-aligned from the unzip to dict(zip(names, combination))")
+    ctx.rule("R-ORDER", "the order of the combinations is a function of the definition's content, not of its writing order: names sorted by the full name, value lists sorted")
     ctx.rule("R-NESTED", "dict-valued parameters are expanded recursively, other value lists kept")
     ctx.rule("R-REGULAR", "regularize_parameters keeps every key once and produces lists of str, recursing into dicts")
     ctx.rule("R-ONCE", "one rendered option per chosen value / sub-value; the value appears once in the option string")
@@ -54,6 +57,23 @@ def check(ctx: Ctx):
               "taking names and values from two differently ordered traversals pairs a parameter with another parameter's values")
     if not ok:
         return
+    # deterministic order, independent of the order in which the definition was written: items sorted by the parameter name itself
+    okd = isinstance(src, ast.Call) and call_name(src) == "sorted" and not any(k.arg == "reverse" and norm(k.value) != "False" for k in src.keywords)
+    if okd:
+        keyf = next((k.value for k in src.keywords if k.arg == "key"), None)
+        okd = keyf is None or (isinstance(keyf, ast.Lambda) and len(keyf.args.args) == 1 and norm(keyf.body) in (f"{keyf.args.args[0].arg}[0]", keyf.args.args[0].arg)) \
+            or norm(keyf) in ("operator.itemgetter(0)", "itemgetter(0)")
+    ctx.check(okd, "R-ORDER", "parameter items are sorted by their name (the whole name: an injective key)", pc, src,
+              "the order of the combinations (hence the job numbering) must not depend on the order in which the parameters were written: a key under which two names tie "
+              "(case folding, a prefix, a length) leaves their relative order to the writing order")
+    vs = [s for s in top if isinstance(s, ast.Assign) and norm(s.targets[0]) == values and isinstance(s.value, ast.ListComp) and isinstance(s.value.elt, ast.IfExp)
+          and isinstance(s.value.elt.body, ast.Call) and call_name(s.value.elt.body) == "sorted"]
+    okv = len(vs) == 1
+    if okv:
+        e = vs[0].value.elt
+        v_ = norm(vs[0].value.generators[0].target)
+        okv = norm(e.test) == f"isinstance({v_}, list)" and norm(e.body) == f"sorted({v_})" and norm(e.orelse) == v_
+    ctx.check(okv, "R-ORDER", "every value list is sorted (whole values, ascending)", pc, vs[0] if vs else pc.node, "the values of one parameter are enumerated in an order that does not depend on the writing order")
     rebinds = [s for s in top if isinstance(s, ast.Assign) and norm(s.targets[0]) in (names, values) and s is not un[0]]
     for s in rebinds:
         v = s.value
@@ -160,6 +180,8 @@ VARIANTS = [
     ("regularize_drops_none", _B, "        else:\n            regularized[k] = [str(v)]\n\n    return regularized", "        elif v is not None:\n            regularized[k] = [str(v)]\n\n    return regularized", "break", "R-REGULAR"),
     ("option_rendered_twice", _B, "        else:\n            options_str.append(build_option_string(p, v))\n", "        else:\n            options_str.append(build_option_string(p, v))\n        if not isinstance(v, dict):\n            options_str.append(build_option_string(p, v))\n", "break", "R-ONCE"),
     ("sub_option_only_first", _B, "            for sub_p, sub_v in v.items():\n                options_str.append(build_option_string(p, f\"{sub_p}:{sub_v}\"))", "            for sub_p, sub_v in v.items():\n                options_str.append(build_option_string(p, f\"{sub_p}:{sub_v}\"))\n                break", "break", "R-ONCE"),
-    ("n_unsorted_items", _B, "        *sorted(algo_parameters.items(), key=lambda x: x[0])\n", "        *algo_parameters.items()\n", "neutral"),
+    ("unsorted_items", _B, "        *sorted(algo_parameters.items(), key=lambda x: x[0])\n", "        *algo_parameters.items()\n", "break", "R-ORDER"),
+    ("names_sorted_case_insensitive", _B, "        *sorted(algo_parameters.items(), key=lambda x: x[0])\n", "        *sorted(algo_parameters.items(), key=lambda x: x[0].lower())\n", "break", "R-ORDER"),
+    ("n_sorted_by_itemgetter", _B, "        *sorted(algo_parameters.items(), key=lambda x: x[0])\n", "        *sorted(algo_parameters.items(), key=lambda item: item[0])\n", "neutral"),
     ("n_rename_loopvar", _B, "        sorted(values) if isinstance(values, list) else values\n        for values in param_values", "        sorted(vals) if isinstance(vals, list) else vals\n        for vals in param_values", "neutral"),
 ]
